@@ -106,3 +106,226 @@ theorem assemble_sameRole {v v' : Ent} {mods mods' : List Ent} {pid pname : Nat}
   exact fragOfOid_sameRole hm g.oid
 
 end Moclo
+
+namespace Moclo
+
+/-- outcomes that agree: the same error, or products with the same sequence and the same unused modules -/
+def OutcomeSame : Except Err Product → Except Err Product → Prop
+  | .error e, .error e' => e = e'
+  | .ok p, .ok p' => p'.rcd.seq = p.rcd.seq ∧ p'.unused = p.unused
+  | _, _ => False
+
+/-- what two extractions have in common -/
+def TargetSame : Except Err Rec → Except Err Rec → Prop
+  | .error e, .error e' => e = e'
+  | .ok t, .ok t' => t'.seq = t.seq
+  | _, _ => False
+
+/-- dereferenced inputs playing the same role -/
+structure DSame (d d' : Ent) : Prop where
+  oid : d'.oid = d.oid
+  faulty : d'.faulty = d.faulty
+  target : TargetSame (d.spec.target d.rcd) (d'.spec.target d'.rcd)
+
+theorem gmod_error_iff {e : Ent} {x : Err} : e.gmod = .error x ↔ e.spec.matchSeq e.rcd.seq = .error x := by
+  unfold Ent.gmod
+  cases hm : e.spec.matchSeq e.rcd.seq with
+  | error y => simp [bind, Except.bind]
+  | ok m => simp [bind, Except.bind, pure, Except.pure]
+
+theorem dSame_of_sameRole {e e' d d' : Ent} (h : SameRole e e') (hd : DerefOf e d) (hd' : DerefOf e' d') :
+    DSame d d' := by
+  obtain ⟨o1, s1, f1, r1⟩ := hd
+  obtain ⟨o2, s2, f2, r2⟩ := hd'
+  have q1 := (derefRec_fields r1).1
+  have q2 := (derefRec_fields r2).1
+  refine ⟨by rw [o2, o1, h.oid], by rw [f2, f1, h.faulty], ?_⟩
+  unfold ClassSpec.target
+  rw [s1, s2, q1, q2]
+  cases hm : e.spec.matchSeq e.rcd.seq with
+  | error x =>
+    have : e'.spec.matchSeq e'.rcd.seq = .error x := by
+      rw [← gmod_error_iff, h.gmod, gmod_error_iff]; exact hm
+    rw [this]; exact rfl
+  | ok m =>
+    cases hm' : e'.spec.matchSeq e'.rcd.seq with
+    | error x =>
+      have : e.spec.matchSeq e.rcd.seq = .error x := by
+        rw [← gmod_error_iff, ← h.gmod, gmod_error_iff]; exact hm'
+      rw [this] at hm; cases hm
+    | ok m' =>
+      show (e'.spec.targetOf d'.rcd m').seq = (e.spec.targetOf d.rcd m).seq
+      rw [targetOf_seq, targetOf_seq, q1, q2]
+      have f := h.frag
+      unfold Ent.fragment fragmentOf at f
+      rw [hm, hm'] at f
+      exact f
+
+theorem find_dSame {ds ds' : List Ent} (h : List.Forall₂ DSame ds ds') (k : Nat) :
+    (∀ d, ds.find? (fun e => e.oid = k) = some d → ∃ d', ds'.find? (fun e => e.oid = k) = some d' ∧ DSame d d') ∧
+    (ds.find? (fun e => e.oid = k) = none → ds'.find? (fun e => e.oid = k) = none) := by
+  induction h with
+  | nil => exact ⟨by simp, by simp⟩
+  | @cons a a' as as' ha _ ih =>
+    simp only [List.find?_cons, ha.oid]
+    by_cases hk : a.oid = k
+    · simp only [hk, decide_true, Option.some.injEq]
+      exact ⟨fun d hd => ⟨a', rfl, hd ▸ ha⟩, by simp⟩
+    · simp only [hk, decide_false]
+      exact ih
+
+theorem extractChain_dSame {ds ds' : List Ent} (h : List.Forall₂ DSame ds ds') :
+    ∀ (chain : List (GMod Word)) (acc acc' : Rec), acc'.seq = acc.seq →
+      TargetSame (extractChain ds chain acc) (extractChain ds' chain acc') := by
+  intro chain
+  induction chain with
+  | nil => intro acc acc' hs; exact hs
+  | cons g gs ih =>
+    intro acc acc' hs
+    simp only [extractChain]
+    obtain ⟨h1, h2⟩ := find_dSame h g.oid
+    cases hf : ds.find? (fun e => e.oid = g.oid) with
+    | none => rw [h2 hf]; exact rfl
+    | some d =>
+      obtain ⟨d', hf', hr⟩ := h1 d hf
+      rw [hf']
+      simp only []
+      rw [hr.faulty]
+      by_cases hfa : d.faulty = true
+      · simp only [hfa, if_true]; exact rfl
+      · simp only [hfa, Bool.false_eq_true, if_false]
+        have ht := hr.target
+        cases h1' : d.spec.target d.rcd with
+        | error x =>
+          cases h2' : d'.spec.target d'.rcd with
+          | error y => rw [h1', h2'] at ht; simp only []; exact ht
+          | ok t' => rw [h1', h2'] at ht; exact ht.elim
+        | ok t =>
+          cases h2' : d'.spec.target d'.rcd with
+          | error y => rw [h1', h2'] at ht; exact ht.elim
+          | ok t' =>
+            rw [h1', h2'] at ht
+            simp only []
+            exact ih _ _ (by simp only [Rec.append_seq]; rw [hs]; congr 1)
+
+end Moclo
+
+namespace Moclo
+
+theorem assembleCore_dSame {v v' : Ent} {mods mods' : List Ent} {pid pname : Nat} {dv dv' : Ent}
+    {dms dms' : List Ent} (map : List (GMod Word)) (gv : GMod Word)
+    (hdv : DSame dv dv') (hd : List.Forall₂ DSame dms dms') :
+    OutcomeSame (assembleCore v mods pid pname dv dms map gv) (assembleCore v' mods' pid pname dv' dms' map gv) := by
+  unfold assembleCore
+  generalize gWalk gv.start (map.length + 1) gv.stop map = w
+  obtain ⟨chain, rest, stall⟩ := w
+  simp only []
+  have hx := extractChain_dSame hd chain ⟨0, [], [], []⟩ ⟨0, [], [], []⟩ rfl
+  cases h1 : extractChain dms chain ⟨0, [], [], []⟩ with
+  | error x =>
+    cases h2 : extractChain dms' chain ⟨0, [], [], []⟩ with
+    | error y => rw [h1, h2] at hx; exact hx
+    | ok a' => rw [h1, h2] at hx; exact hx.elim
+  | ok acc =>
+    cases h2 : extractChain dms' chain ⟨0, [], [], []⟩ with
+    | error y => rw [h1, h2] at hx; exact hx.elim
+    | ok acc' =>
+      rw [h1, h2] at hx
+      simp only []
+      cases stall with
+      | some o => exact rfl
+      | none =>
+        simp only []
+        rw [hdv.faulty]
+        by_cases hfa : dv.faulty = true
+        · simp only [hfa, if_true]; exact rfl
+        · simp only [hfa, Bool.false_eq_true, if_false]
+          have ht := hdv.target
+          cases t1 : dv.spec.target dv.rcd with
+          | error x =>
+            cases t2 : dv'.spec.target dv'.rcd with
+            | error y => rw [t1, t2] at ht; exact ht
+            | ok t' => rw [t1, t2] at ht; exact ht.elim
+          | ok t =>
+            cases t2 : dv'.spec.target dv'.rcd with
+            | error y => rw [t1, t2] at ht; exact ht.elim
+            | ok t' =>
+              rw [t1, t2] at ht
+              simp only [OutcomeSame, rerefRec_seq, Rec.append_seq]
+              exact ⟨by rw [hx, ht], trivial⟩
+
+theorem mapM_deref_sameRole {mods mods' : List Ent} (h : List.Forall₂ SameRole mods mods') :
+    (∃ dms dms', mods.mapM (fun e => (derefRec e.rcd).map (fun r => { e with rcd := r })) = some dms ∧
+        mods'.mapM (fun e => (derefRec e.rcd).map (fun r => { e with rcd := r })) = some dms' ∧
+        List.Forall₂ DSame dms dms') ∨
+    (mods.mapM (fun e => (derefRec e.rcd).map (fun r => { e with rcd := r })) = none ∧
+     mods'.mapM (fun e => (derefRec e.rcd).map (fun r => { e with rcd := r })) = none) := by
+  induction h with
+  | nil => exact Or.inl ⟨[], [], rfl, rfl, List.Forall₂.nil⟩
+  | @cons e e' es es' he _ ih =>
+    simp only [List.mapM_cons]
+    cases h1 : derefRec e.rcd with
+    | none =>
+      have : derefRec e'.rcd = none := by
+        have := he.deref; rw [h1] at this
+        cases h2 : derefRec e'.rcd with
+        | none => rfl
+        | some _ => rw [h2] at this; cases this
+      right; simp [h1, this]
+    | some r =>
+      have hs : (derefRec e'.rcd).isSome = true := by rw [he.deref, h1]; rfl
+      obtain ⟨r', h2⟩ := Option.isSome_iff_exists.mp hs
+      rcases ih with ⟨dms, dms', a, b, c⟩ | ⟨a, b⟩
+      · left
+        refine ⟨{ e with rcd := r } :: dms, { e' with rcd := r' } :: dms', by simp [h1, a], by simp [h2, b], ?_⟩
+        exact List.Forall₂.cons (dSame_of_sameRole he ⟨rfl, rfl, rfl, h1⟩ ⟨rfl, rfl, rfl, h2⟩) c
+      · right; simp [h1, h2, a, b]
+
+/-- **the whole outcome depends on the inputs only through their roles**: the same error, or products with
+the same sequence and the same unused modules -/
+theorem assemble_sameRole_outcome {v v' : Ent} {mods mods' : List Ent} (pid pname : Nat)
+    (hv : SameRole v v') (hm : List.Forall₂ SameRole mods mods') :
+    OutcomeSame (assemble v mods pid pname).1 (assemble v' mods' pid pname).1 := by
+  unfold assemble
+  simp only []
+  rw [hv.gmod, evalPrefix_sameRole hm]
+  cases hg : v.gmod with
+  | error x => exact rfl
+  | ok gv =>
+    simp only []
+    by_cases hne : gv.start = gv.stop
+    · simp only [hne, if_true]; exact rfl
+    · simp only [hne, if_false]
+      generalize evalPrefix mods = ep
+      obtain ⟨gs, err⟩ := ep
+      simp only []
+      cases hb : gBuild gs [] with
+      | error x => exact rfl
+      | ok map =>
+        simp only []
+        cases err with
+        | some x => exact rfl
+        | none =>
+          simp only []
+          cases hc : gRcClash rc map with
+          | true => simp only [if_true]; exact rfl
+          | false =>
+            simp only [Bool.false_eq_true, if_false]
+            rcases mapM_deref_sameRole hm with ⟨dms, dms', a, b, c⟩ | ⟨a, b⟩
+            · rw [a, b]
+              cases h1 : derefRec v.rcd with
+              | none =>
+                have : derefRec v'.rcd = none := by
+                  have := hv.deref; rw [h1] at this
+                  cases h2 : derefRec v'.rcd with
+                  | none => rfl
+                  | some _ => rw [h2] at this; cases this
+                simp only [this, Option.map_none]; exact rfl
+              | some r =>
+                have hs : (derefRec v'.rcd).isSome = true := by rw [hv.deref, h1]; rfl
+                obtain ⟨r', h2⟩ := Option.isSome_iff_exists.mp hs
+                simp only [h2, Option.map_some]
+                exact assembleCore_dSame map gv (dSame_of_sameRole hv ⟨rfl, rfl, rfl, h1⟩ ⟨rfl, rfl, rfl, h2⟩) c
+            · rw [a, b]; exact rfl
+
+end Moclo
